@@ -479,6 +479,17 @@ func (e *Engine) VerifyFunc(c *Contract) (res *FuncResult) {
 		ex.assumeRaw(ex.evalSpec(lenv, lm.E).S())
 		ex.note("lemma", ln)
 	}
+	// axioms of the function's package and of the library are assumed (and listed as assumptions)
+	for _, ax := range e.axioms {
+		if ax.PkgPath == c.PkgPath || ax.PkgPath == "" {
+			aenv := ex.newEnv(ax.PkgPath, st)
+			if ax.PkgPath == "" {
+				aenv = ex.newEnv(c.PkgPath, st)
+			}
+			ex.assumeRaw(ex.evalSpec(aenv, ax.E).S())
+			ex.note("axiom", ax.Name)
+		}
+	}
 	for _, rq := range c.Requires {
 		ex.assume(st, ex.evalBool(env0, rq))
 	}
